@@ -532,6 +532,10 @@ func (x *dlExec) judge() *svcViolation {
 				p := x.exp[string(d.data)]
 				where := fmt.Sprintf("batchMode=%s proto=%s application %d", dlVariant[v], x.plan.Proto, s.a)
 				switch {
+				case p == nil && d.from != x.lis[v]:
+					// not from the relay's listener: a stray datagram of another process on this shared machine
+					x.labels["stray-datagram-ignored"] = true
+					continue
 				case p == nil:
 					return safetyf("SIG=C04/svc-downlink-unknown-datagram %s received %d bytes that no fresh server packet carried: % x", where, len(d.data), d.data[:min(len(d.data), 32)])
 				case !p.must:
